@@ -197,6 +197,48 @@ def agent_callback_fails(fail_at: int, leaver: int, v0: int, v1: int, v2: int, w
     return hx.end(True)
 
 
+class Swapper(System):
+    """at timestep `when` replaces the model's agent collector by a fresh one registered under the same (default) id"""
+    __slots__ = ['when', 'old', 'new']
+
+    def execute(self):
+        if self.model.systems.timestep == self.when:
+            self.model.systems.remove_system(self.old.id)
+            self.model.systems.add_system(self.new)
+
+
+def collector_swapped(t0: int, when: int, v: int) -> bool:
+    """
+    pre: 0 <= when < 3
+    post: _
+    """
+    # what is collected changes when a new phase starts: a higher-priority system swaps the collector mid-timestep for a
+    # replacement with the same id.  The old collector holds records for the timesteps before the swap only ("nothing
+    # invented"), the new one from the swap on.
+    hx.begin()
+    m = M()
+    a = Agent("a0", m)
+    m.environment.add_agent(a)
+    m.systems.timestep = t0
+    old = Col.AgentCollector(m, lambda ag: v, includeTimstep=True, start=t0, end=t0 + 1000)
+    new = Col.AgentCollector(m, lambda ag: v + 1, includeTimstep=True, start=t0, end=t0 + 1000)
+    sw = Swapper("swapper", m, priority=5, start=t0, end=t0 + 1000)
+    sw.when, sw.old, sw.new = t0 + when, old, new
+    m.systems.add_system(old)
+    m.systems.add_system(sw)
+    m.execute(3)
+    exp_old = [{"timestep": t0 + k, "a0": v} for k in range(when)]
+    exp_new = [{"timestep": t0 + k, "a0": v + 1} for k in range(when, 3)]
+    exp_new_later = exp_new[1:]      # (whether a system registered mid-timestep already runs in that timestep is left open)
+    if when > 0:
+        hx.reach('old_collected')
+    if old.records != exp_old:
+        return hx.end(hx.fail("records of the collector that was removed before its turn", got=old.records, exp=exp_old))
+    if new.records != exp_new and new.records != exp_new_later:
+        return hx.end(hx.fail("records of the replacement collector", got=new.records, exp=exp_new, or_from_next_timestep=exp_new_later))
+    return hx.end(True)
+
+
 class Churn(System):
     """priority-0 system that changes the population according to a plan {timestep offset: (+1 | -1)}; optionally it
     first replaces the model's environment by a fresh one (carrying the residents over) at step `swap_at`"""
@@ -236,9 +278,13 @@ def agent_collect_window(start: int, end: int, t0: int, d0: int, d1: int, d2: in
     m.systems.timestep = t0
     churn = Churn("churn", m)                                     # default priority 0
     churn.start, churn.end = t0, t0 + 1000                       # due at every (arbitrary) timestep of the run
-    m.systems.add_system(churn)
     c = Col.AgentCollector(m, lambda a: 1, includeTimstep=True, frequency=f, start=start, end=end)   # default priority -1
-    m.systems.add_system(c)
+    if hx.P.get('collector_first'):       # the order of registration does not matter: defaults put collectors last
+        m.systems.add_system(c)
+        m.systems.add_system(churn)
+    else:
+        m.systems.add_system(churn)
+        m.systems.add_system(c)
     pop = []
     exp = []
     for k in range(steps):
@@ -493,6 +539,8 @@ def obligations(tier):
         X("file_open_fails", file_open_fails, labels=("open_failed",), timeout=900,
           encoded=(Col.FileCollector.execute, Col.FileCollector.write_records),
           bounds={"write_count": "0..2", "steps": 6, "failing open": "any of the first four"}),
+        X("collector_swapped", collector_swapped, labels=("old_collected",), timeout=300, encoded=(Col.AgentCollector.collect, Col.Collector.execute),
+          bounds={"timesteps": 3, "swap": "at any of them, by a priority-5 system"}),
         X("agent_callback_fails", agent_callback_fails, labels=("callback_failed", "one_left"), timeout=900,
           encoded=(Col.AgentCollector.collect, Col.Collector.execute),
           bounds={"agents": 3, "failing callback": "per-agent function at any agent / composite function", "then": "any one agent (or none) leaves, any agent may report nothing"}),
@@ -500,7 +548,7 @@ def obligations(tier):
           timeout=900, encoded=(Col.FileCollector.execute,), bounds={"write_count": "0..2", "failing collections": "any subset of the first five timesteps"}),
         X("agent_collect_window", agent_collect_window,
           parts=[{"f": f, "steps": s} for f, s in (((1, 3), (2, 3)) if tier == "quick" else ((1, 3), (2, 3), (2, 4), (3, 4)))] +
-          [{"f": 1, "steps": 3, "swap_at": 1}],
+          [{"f": 1, "steps": 3, "swap_at": 1}, {"f": 1, "steps": 3, "collector_first": True}],
           labels=("some_scheduled",), timeout=1200, encoded=(Col.AgentCollector.collect, Col.Collector.__init__)),
         X("file_conservation", file_conservation, parts=[{"steps": steps, "c01": [a, b]} for a in range(3) for b in range(3)] + [{"steps": 4, "c01": [1, 2], "custom_writer": True}],
           labels=("two_flushes", "never_flushed"),
